@@ -316,6 +316,11 @@ class Run(object):
             elif a == "WaitOver":
                 d1 = "$" + "AB" * 20
                 self.sim.event("650 HS_DESC UPLOAD %s UNKNOWN %s desc\r\n" % (SID, d1))
+                if getattr(self, "shared", False):
+                    # another service shares our directory: its upload there is refused, and somebody's fetch of its
+                    # descriptor from there fails, after our upload was announced and before it is confirmed
+                    self.sim.event("650 HS_DESC FAILED otherotherother3 UNKNOWN %s REASON=UPLOAD_REJECTED\r\n" % d1)
+                    self.sim.event("650 HS_DESC FAILED otherotherother3 NO_AUTH %s REASON=NOT_FOUND\r\n" % d1)
                 if self.fault == "uploads":
                     self.sim.event("650 HS_DESC FAILED %s UNKNOWN %s REASON=UPLOAD_REJECTED\r\n" % (SID, d1))
                 else:
@@ -460,6 +465,7 @@ def replay(cfg, fault, noise="", others=False):
     """noise: "" | "up" | "fail": descriptor events of another service arrive while the creation command is
     outstanding and again during the descriptor wait"""
     run = Run(cfg, MODEL_FAULT.get(fault, fault), others)
+    run.shared = (noise == "fail")
     steps = []
     script = [dict(a="Relisten", busy=True) if a == "Relisten!" else dict(a=a) for a in script_for(cfg, fault, others)]
     if noise:
